@@ -601,7 +601,21 @@ func (e *Engine) run(st *State, fr *Frame, b *ssa.BasicBlock, idx int) []Outcome
 			case *ssa.MapUpdate:
 				e.mapUpdate(st, fr, i)
 			case *ssa.Select:
-				// nondeterministic choice among the cases; received values are unconstrained
+				// nondeterministic choice among the cases; received values are unconstrained. A blocking select that
+				// sends must offer a way out: a receive on a cancellation channel (ctx.Done()).
+				if i.Blocking && !st.spec {
+					hasSend, hasDone := false, false
+					for _, sc := range i.States {
+						if sc.Dir == types.SendOnly {
+							hasSend = true
+						} else if chanName(sc.Chan) == "Done" {
+							hasDone = true
+						}
+					}
+					if hasSend {
+						e.oblige(st, "safe:select-cancellable", Bool(hasDone), "a blocking select with a send case must have a ctx.Done() alternative")
+					}
+				}
 				var res []Outcome
 				for k, sc := range i.States {
 					st2, fr2 := st.clone(), fr.clone()
@@ -612,7 +626,9 @@ func (e *Engine) run(st *State, fr *Frame, b *ssa.BasicBlock, idx int) []Outcome
 							tup = append(tup, st2.freshVal(et, "recv"))
 						}
 					}
-					_ = sc
+					if sc.Dir == types.SendOnly {
+						e.chanEvent(st2, fr2, "select-send", sc.Chan, e.get(st2, fr2, sc.Send))
+					}
 					fr2.regs[i] = tup
 					res = append(res, e.run(st2, fr2, b, idx+1)...)
 				}
@@ -631,13 +647,44 @@ func (e *Engine) run(st *State, fr *Frame, b *ssa.BasicBlock, idx int) []Outcome
 				}
 				return res
 			case *ssa.RunDefers:
-				// executed in LIFO order; only statically known callees supported
-				for k := len(fr.defers) - 1; k >= 0; k-- {
-					d := fr.defers[k]
-					e.warn("defer of %v executed as no-op model", d.call)
+				// deferred calls run in LIFO order with the values captured at the defer statements
+				if len(fr.defers) == 0 {
+					continue
 				}
+				return e.runDefers(st, fr, b, idx+1)
 			case *ssa.Defer:
-				fr.defers = append(fr.defers, deferred{call: &i.Call})
+				d := deferred{call: &i.Call}
+				for _, a := range i.Call.Args {
+					d.args = append(d.args, e.get(st, fr, a))
+				}
+				if needsFnVal(&i.Call) {
+					d.fn = e.get(st, fr, i.Call.Value)
+				}
+				fr.defers = append(fr.defers, d)
+			case *ssa.Go:
+				// the spawned body is verified as a unit of its own against the channel contracts; here only the
+				// hook (if any) records that it was started
+				name := "go"
+				if f := i.Call.StaticCallee(); f != nil {
+					name = f.Name()
+				} else if mc, ok := i.Call.Value.(*ssa.MakeClosure); ok {
+					name = mc.Fn.Name()
+				}
+				name = strings.NewReplacer("$", "_func").Replace(name)
+				if hook := e.note(e.unitFn.Pkg.Func("vc_hook_go_" + name)); hook != nil && !st.spec {
+					e.pendingParent = fr
+					hs := e.execFunc(st, hook, e.bindByName(st, fr, hook), nil, fr.depth+1)
+					if len(hs) != 1 {
+						fail("hook %s must be straight-line", hook.Name())
+					}
+					st = hs[0].st
+				} else {
+					e.warn("go statement: %s is verified as its own unit", name)
+				}
+			case *ssa.MakeChan:
+				fr.regs[i] = ChanV{ID: st.allocRef(), Cap: idx64(asTerm(e.get(st, fr, i.Size)), i.Size.Type())}
+			case *ssa.Send:
+				e.chanEvent(st, fr, "send", i.Chan, e.get(st, fr, i.X))
 			case *ssa.If:
 				c := asTerm(e.get(st, fr, i.Cond))
 				if c.IsTrue() {
@@ -832,7 +879,21 @@ func (e *Engine) unop(st *State, fr *Frame, i *ssa.UnOp) Val {
 	case token.XOR:
 		return BNot(asTerm(x))
 	case token.ARROW:
-		fail("channel receive not supported in this probe")
+		// plain receive: the value is unconstrained; whether it may block forever is the contract's business
+		e.chanEvent(st, fr, "recv", i.X, nil)
+		et := i.X.Type().Underlying().(*types.Chan).Elem()
+		st.noPre = true
+		v := st.freshVal(et, "recv")
+		st.noPre = false
+		okT := Sym(fresh("recvok"), 0)
+		// channel value invariant (assumed here; established by the sender's unit)
+		if inv := e.note(e.unitFn.Pkg.Func("vc_chan_value_" + chanName(i.X))); inv != nil && !st.spec {
+			st.assumeT(Implies(okT, e.evalContract(st, inv, []Val{v}, true)))
+		}
+		if i.CommaOk {
+			return TupleV{v, okT}
+		}
+		return v
 	}
 	fail("unop %s", i.Op)
 	return nil
@@ -910,6 +971,28 @@ func (e *Engine) binop(st *State, op token.Token, xv, yv Val, xt types.Type, ins
 			return Not(c)
 		}
 		return c
+	case FuncV:
+		if _, ok := yv.(NilV); ok {
+			return Bool(op == token.NEQ) // a function literal is never nil
+		}
+	case ChanV, FuncSym:
+		id := func(v Val) *Term {
+			switch x := v.(type) {
+			case ChanV:
+				return x.ID
+			case FuncSym:
+				return x.ID
+			case NilV:
+				return BVu(0, 64)
+			}
+			fail("channel / function value compared with %T", v)
+			return nil
+		}
+		c := Eq(id(xv), id(yv))
+		if op == token.NEQ {
+			return Not(c)
+		}
+		return c
 	case IfaceV:
 		// comparison of a path-known interface value with nil
 		isNil := false
@@ -918,6 +1001,8 @@ func (e *Engine) binop(st *State, op token.Token, xv, yv Val, xt types.Type, ins
 			isNil = true
 		case IfaceV:
 			isNil = b.Tag == nil
+		case ErrV:
+			isNil = b.NonNil.IsFalse()
 		}
 		if isNil {
 			if op == token.NEQ {
@@ -926,6 +1011,23 @@ func (e *Engine) binop(st *State, op token.Token, xv, yv Val, xt types.Type, ins
 			return Bool(a.Tag == nil)
 		}
 	case NilV:
+		if _, ok := yv.(NilV); ok {
+			return Bool(op == token.EQL)
+		}
+		switch b := yv.(type) {
+		case ChanV:
+			c := Eq(b.ID, BVu(0, 64))
+			if op == token.NEQ {
+				return Not(c)
+			}
+			return c
+		case FuncSym:
+			c := Eq(b.ID, BVu(0, 64))
+			if op == token.NEQ {
+				return Not(c)
+			}
+			return c
+		}
 		if b, ok := yv.(IfaceV); ok {
 			if op == token.NEQ {
 				return Bool(b.Tag != nil)
@@ -947,7 +1049,21 @@ func (e *Engine) binop(st *State, op token.Token, xv, yv Val, xt types.Type, ins
 			}
 			return Not(a.NonNil)
 		}
-		fail("error comparison not against nil")
+		if ok {
+			// identity of error values
+			c := And(Eq(a.NonNil, bErr.NonNil), Or(Not(a.NonNil), Eq(a.ID, bErr.ID)))
+			if op == token.NEQ {
+				return Not(c)
+			}
+			return c
+		}
+		if iv, ok := yv.(IfaceV); ok && iv.Tag == nil {
+			if op == token.NEQ {
+				return a.NonNil
+			}
+			return Not(a.NonNil)
+		}
+		fail("error compared with %T", yv)
 	}
 	if sx, ok := xv.(StructV); ok {
 		sy, ok := yv.(StructV)
@@ -1360,6 +1476,10 @@ func (e *Engine) loadGlobal(st *State, g *ssa.Global) Val {
 	case "encoding/binary.LittleEndian", "encoding/binary.BigEndian":
 		return OpaqueV{n}
 	}
+	if et := g.Type().Underlying().(*types.Pointer).Elem(); isError(et) {
+		// package-level sentinel errors (errors.New at init): a non-nil error with its own identity
+		return ErrV{NonNil: tTrue, ID: Sym("global!"+strings.NewReplacer("/", "_", ".", "_").Replace(n), 64)}
+	}
 	if v, ok := globalInit[g]; ok {
 		return v
 	}
@@ -1389,6 +1509,11 @@ func (e *Engine) evalGlobalInit(st *State, g *ssa.Global) (Val, bool) {
 				continue
 			}
 			switch v := s.Val.(type) {
+			case *ssa.Const: // a scalar initialised from a constant (assumed never reassigned)
+				if bvWidth(v.Type()) >= 0 && !isFloat(v.Type()) {
+					e.warn("assumed: package-level variable %s keeps its initial value", g.String())
+					return constVal(v), true
+				}
 			case *ssa.Slice: // slicelit: new [N]T then stores then slice
 				alloc, ok := v.X.(*ssa.Alloc)
 				if !ok {
@@ -1857,4 +1982,23 @@ func (e *Engine) simplifyVals(st *State, vs []Val) []Val {
 		}
 	}
 	return out
+}
+
+
+// runDefers executes the frame's deferred calls (last first) and continues after the RunDefers instruction.
+func (e *Engine) runDefers(st *State, fr *Frame, b *ssa.BasicBlock, next int) []Outcome {
+	if len(fr.defers) == 0 {
+		return e.run(st, fr, b, next)
+	}
+	d := fr.defers[len(fr.defers)-1]
+	fr.defers = fr.defers[:len(fr.defers)-1]
+	var res []Outcome
+	for _, o := range e.callCC(st, fr, d.call, &d) {
+		f2 := fr
+		if o.st != st {
+			f2 = fr.clone()
+		}
+		res = append(res, e.runDefers(o.st, f2, b, next)...)
+	}
+	return res
 }
